@@ -198,6 +198,7 @@ type genBatch struct {
 	Incon       []string            `json:"incon"`
 	Calls       int64               `json:"calls"`
 	ArgEvents   int64               `json:"arg_events"`
+	MidPoisons  int64               `json:"mid_poisons"`
 	EmitEvents  int64               `json:"emit_events"`
 	SchedStates int64               `json:"sched_states"`
 	ByTag       map[string]int      `json:"by_tag"`
@@ -212,19 +213,19 @@ type genBatch struct {
 }
 
 type genAgg struct {
-	Concurrent, Nested         int
-	Programs, Dropped          int
-	Evaluations                int
-	Calls, Args, Emits, States int64
-	ByTag                      map[string]int
-	NonTrivial                 int
-	Distinct                   map[uint64]struct{}
-	Features                   map[string]int
-	MaxHWM                     map[string]int
-	Samples                    []json.RawMessage
-	Crashes                    int
-	RaceReports                int
-	DroppedWhy                 map[string]string
+	Concurrent, Nested                     int
+	Programs, Dropped                      int
+	Evaluations                            int
+	Calls, Args, Emits, States, MidPoisons int64
+	ByTag                                  map[string]int
+	NonTrivial                             int
+	Distinct                               map[uint64]struct{}
+	Features                               map[string]int
+	MaxHWM                                 map[string]int
+	Samples                                []json.RawMessage
+	Crashes                                int
+	RaceReports                            int
+	DroppedWhy                             map[string]string
 }
 
 // runGen runs the corpus' runner over all programs and feeds violations of
@@ -305,6 +306,7 @@ func runGen(c *ctx, co *corpus, tags string, per int, race bool) *genAgg {
 		agg.Nested += br.Nested
 		agg.Calls += br.Calls
 		agg.Args += br.ArgEvents
+		agg.MidPoisons += br.MidPoisons
 		agg.Emits += br.EmitEvents
 		agg.States += br.SchedStates
 		for k, v := range br.ByTag {
@@ -424,11 +426,12 @@ func (a *genAgg) coverage(rule string) map[string]interface{} {
 		"dropped_reasons":                          a.DroppedWhy,
 		"stub_calls_logged":                        a.Calls,
 		"argument_events":                          a.Args,
-		"emitter_events":                           a.Emits,
-		"scheduler_states":                         a.States,
-		"executions_by_family":                     a.ByTag,
-		"program_features":                         feats,
-		"max_inflight_by_limit":                    a.MaxHWM,
-		"child_crashes":                            a.Crashes,
+		"argument_calls_that_overwrote_earlier_argument_variables": a.MidPoisons,
+		"emitter_events":        a.Emits,
+		"scheduler_states":      a.States,
+		"executions_by_family":  a.ByTag,
+		"program_features":      feats,
+		"max_inflight_by_limit": a.MaxHWM,
+		"child_crashes":         a.Crashes,
 	}
 }
